@@ -269,24 +269,80 @@ func GenUploads(t *rapid.T) Case {
 	return c
 }
 
-// Enumerate sweeps every content length 0…1100 of a single upload without a declared type, for text and binary
-// content and three delivery scripts (thorough tier, shard 0).
-func Enumerate(yield func(Case) bool) {
-	scripts := []Script{{}, {Chunks: []int{10}}, {Rest: 1}, {Chunks: []int{0, 3}, Rest: 509, EOFWithData: true}}
-	hs := []Content{{Fill: "text"}, {Head: "\x89PNG\r\n\x1a\n", Fill: "bin"}, {Fill: "space", Head: "  <html>"}, {Fill: "text", Ctl: 512}}
-	for n := 0; n <= 1100; n++ {
-		for hi, h := range hs {
-			for si, sc := range scripts {
-				h.Len = n
-				auth := []int{-1, 1, 0, 3}[(n+hi+si)%4]
-				c := Case{Method: "POST", Kind: "form", MediaType: mtMultipart, Route: "consumes", Auth: auth, AuthVia: "op",
-					Files: []FileField{{Name: "file", Files: []File{{Name: kit.BStr(fmt.Sprintf("f%d.dat", n)), Data: h, Script: sc}}}}}
-				if !yield(c) {
-					return
-				}
-			}
+// Sweep is a case of the "window" sub-check: one upload description whose content length is swept over every
+// value in [From, To] (the whole range 0…1100 unless shrinking narrowed it).
+type Sweep struct {
+	From int  `json:"from"`
+	To   int  `json:"to"`
+	Base Case `json:"base"` // a form payload; the length of its first file is replaced by each swept value
+}
+
+// GenSweep draws the variant that is swept: content prefix and filler, delivery script, declared type or not,
+// file name, companions (fields, a second file), auth writer.
+func GenSweep(t *rapid.T) Sweep {
+	var c Case
+	genCommon(t, &c)
+	c.Kind = "form"
+	c.MediaType = formMediaType(t, true)
+	f := genFile(t)
+	if rapid.IntRange(0, 4).Draw(t, "keepdeclared") > 0 {
+		f.Declared = "" // mostly sniffed: that is what depends on the length
+	}
+	ff := FileField{Name: kit.BStr(genName(t, fieldNames, "filefieldname")), Files: []File{f}}
+	if rapid.IntRange(0, 3).Draw(t, "second") == 0 {
+		ff.Files = append(ff.Files, genFile(t))
+	}
+	c.Files = []FileField{ff}
+	if rapid.IntRange(0, 3).Draw(t, "withfields") == 0 {
+		c.Fields = genFields(t, 1)
+	}
+	lo := rapid.IntRange(0, 1100).Draw(t, "from")
+	hi := rapid.IntRange(lo, 1100).Draw(t, "to")
+	if rapid.IntRange(0, 9).Draw(t, "full") > 0 {
+		lo, hi = 0, 1100
+	}
+	return Sweep{From: lo, To: hi, Base: c}
+}
+
+func (s Sweep) at(n int) Case {
+	c := s.Base
+	c.Files = []FileField{{Name: s.Base.Files[0].Name, Files: append([]File{}, s.Base.Files[0].Files...)}}
+	c.Files[0].Files[0].Data.Len = n
+	return c
+}
+
+// CheckSweep checks the variant at every length of the range.
+func CheckSweep(s Sweep) *kit.Violation {
+	if len(s.Base.Files) == 0 || len(s.Base.Files[0].Files) == 0 {
+		return kit.Failf("harness: sweep without a file")
+	}
+	for n := s.From; n <= s.To; n++ {
+		if v := Check(s.at(n)); v != nil {
+			return kit.Failf("at content length %d: %s", n, v.Msg)
 		}
 	}
+	return nil
+}
+
+// ClassifySweep labels the variant; every sweep that reaches below 512 bytes is non-trivial.
+func ClassifySweep(s Sweep) (bool, []string) {
+	if len(s.Base.Files) == 0 || len(s.Base.Files[0].Files) == 0 {
+		return false, nil
+	}
+	_, lab := Classify(s.at(513))
+	out := []string{}
+	for _, l := range lab {
+		if !strings.HasPrefix(l, "file <") && !strings.HasPrefix(l, "file >") && !strings.HasPrefix(l, "file =") && l != "file empty" {
+			out = append(out, l)
+		}
+	}
+	if s.From == 0 && s.To == 1100 {
+		out = append(out, "every length 0..1100")
+	} else {
+		out = append(out, "partial range")
+	}
+	sort.Strings(out)
+	return s.From < 512, out
 }
 
 // Classify ------------------------------------------------------------------------------------------
@@ -484,7 +540,9 @@ func Props() []kit.Runner {
 	return []kit.Runner{
 		kit.Prop[Case]{ID: "C11", Name: "bodies", Rule: rule, Quick: 50000, Thorough: 300000,
 			Gen: Gen, Check: Check, Classify: Classify},
-		kit.Prop[Case]{ID: "C11", Name: "uploads", Rule: rule + "; this sub-check draws multipart documents with files only, and in the thorough tier shard 0 first sweeps every content length 0..1100 x 4 contents x 4 delivery scripts", Quick: 30000, Thorough: 200000,
-			Gen: GenUploads, Check: Check, Classify: Classify, Enumerate: Enumerate},
+		kit.Prop[Case]{ID: "C11", Name: "uploads", Rule: rule + "; this sub-check draws multipart documents with files only", Quick: 30000, Thorough: 200000,
+			Gen: GenUploads, Check: Check, Classify: Classify},
+		kit.Prop[Sweep]{ID: "C11", Name: "window", Rule: rule + "; this sub-check draws one upload variant (content prefix and filler, delivery script, declared type or not, name, companions, auth writer) and checks it at every content length 0..1100 (1101 requests per case); non-trivial = the swept range reaches below 512 bytes", Quick: 120, Thorough: 600,
+			Gen: GenSweep, Check: CheckSweep, Classify: ClassifySweep},
 	}
 }
